@@ -34,6 +34,10 @@ public:
   int _last_line;
   bool _c_style;
   std::string _comment;
+
+  // The line of the declaration this comment has been attached to by
+  // get_comment_before(), or 0 if it has not been attached yet.
+  int _attached_line = 0;
 };
 
 typedef std::list<CPPCommentBlock *> CPPComments;
